@@ -34,6 +34,50 @@ theorem status_fatal (code : Nat) (k : StatusKind) (h : code < 2 ^ 16) :
   have h2 : code / 2 ^ 15 = 0 ∨ code / 2 ^ 15 = 1 := by omega
   rcases h2 with h1 | h1 <;> simp [h1]
 
+private theorem lookup_success (sev num : Nat)
+    (h : lookupCode sev num genCpTable = some .SUCCESS) : sev = 0 ∧ num = 0 := by
+  simp only [genCpTable, lookupCode] at h
+  by_cases c : sev = 0 ∧ num = 0
+  · exact c
+  · rw [if_neg c] at h
+    repeat' split at h
+    all_goals simp at h
+
+/-- **status_split (success)**: a parsed status `is_success()` exactly when the code is
+0x0000 (GenCP SUCCESS); in particular no device-specific or USB3 Vision code is a success. -/
+theorem status_success (p : Profile) (code : Nat) (s : Status) (h : code < 2 ^ 16)
+    (hs : Status.ofCode p code = .ok s) : s.isSuccess = statusSuccess code := by
+  rw [ofCode_eq_spec p code h, specStatus] at hs
+  by_cases h0 : code = 0
+  · subst h0
+    have : statusClass 0 = some (.genCp .SUCCESS) := by decide
+    rw [this] at hs
+    injection hs with hs
+    rw [← hs]; rfl
+  · have hf : statusSuccess code = false := by simp [statusSuccess, h0]
+    rw [hf]
+    split at hs
+    · rename_i k hk
+      injection hs with hs
+      rw [← hs]
+      -- a class whose model kind is `GenCp(Success)` is SUCCESS, which only code 0 has
+      have hne : k ≠ .genCp .SUCCESS := by
+        intro hk'
+        rw [hk'] at hk
+        unfold statusClass at hk
+        have hlt : nspace code < 4 := Nat.mod_lt _ (by decide)
+        have hc : nspace code = 0 ∨ nspace code = 1 ∨ nspace code = 2 ∨ nspace code = 3 := by omega
+        rcases hc with hn | hn | hn | hn <;> rw [hn] at hk <;> simp at hk
+        · have := lookup_success _ _ hk
+          simp only [severity, number] at this
+          simp only [nspace] at hn
+          omega
+      cases k with
+      | genCp c => cases c <;> first | exact absurd rfl hne | rfl
+      | usb3v c => cases c <;> rfl
+      | deviceSpecific => rfl
+    · cases hs
+
 /-- **status_split (namespaces)**: the reference classification is by namespace —
 GenCP codes have bits 14:13 = 00, USB3 Vision 01, every 10 code is device specific,
 every 11 code is refused. -/
@@ -111,6 +155,7 @@ theorem ack_parse_faithful (p : Profile) (bs : Bytes) (pk : AckPacket)
     pk.ccd.status.code = statusCodeOf bs ∧
     (∃ k, statusClass (statusCodeOf bs) = some k ∧ pk.ccd.status.kind = ofClass k) ∧
     pk.ccd.status.isFatal = statusFatal (statusCodeOf bs) ∧
+    pk.ccd.status.isSuccess = statusSuccess (statusCodeOf bs) ∧
     (∃ k, ackKindOfId (commandIdOf bs) = some k ∧ pk.ccd.scdKind = ofKind k) ∧
     pk.ccd.scdLen = scdLenOf bs ∧ pk.ccd.requestId = requestIdOf bs ∧
     pk.rawOff = 12 ∧ pk.rawScd = bs.drop 12 ∧ pk.rawOff + pk.rawScd.length = bs.length := by
@@ -126,10 +171,11 @@ theorem ack_parse_faithful (p : Profile) (bs : Bytes) (pk : AckPacket)
     obtain ⟨kd, hkd, h⟩ := bind_eq_ok h
     injection h with h
     subst h
+    have hsucc := status_success p _ st (uintAt2_lt _ _) hst
     rw [ofCode_eq_spec p _ (uintAt2_lt _ _), specStatus] at hst
     rw [ofId_eq_spec, specKind] at hkd
     simp only [HEADER_LEN, magicOf, statusCodeOf, commandIdOf, scdLenOf, requestIdOf, ACK_MAGIC]
-    refine ⟨h12, by simpa [ACK_PREFIX_MAGIC] using hm, ?_, ?_, ?_, ?_, by first | rfl | trivial,
+    refine ⟨h12, by simpa [ACK_PREFIX_MAGIC] using hm, ?_, ?_, ?_, hsucc, ?_, by first | rfl | trivial,
       by first | rfl | trivial, by first | rfl | trivial, by first | rfl | trivial, ?_⟩
     · split at hst
       · injection hst with hst; rw [← hst]
@@ -166,7 +212,7 @@ theorem ack_views_faithful (p : Profile) (bs : Bytes) (pk : AckPacket)
     (∀ ls, WriteMemStacked.parse p pk.rawScd pk.ccd = .ok ls →
       ls = stackedLengthsOf bs ∧ scdLenOf bs % 4 = 0 ∧ 12 + scdLenOf bs ≤ bs.length ∧
       ∀ i, i < scdLenOf bs / 4 → stackedReservedOf bs i = 0) := by
-  obtain ⟨h12, _, _, _, _, _, hlen, _, _, hraw, _⟩ := ack_parse_faithful p bs pk h
+  obtain ⟨h12, _, _, _, _, _, _, hlen, _, _, hraw, _⟩ := ack_parse_faithful p bs pk h
   simp only [HEADER_LEN] at h12
   rw [hraw]
   refine ⟨?_, ?_, ?_⟩
